@@ -203,8 +203,38 @@ def tiled_fields(draw):
     return [fields[i] for i in order]
 
 
+@st.composite
+def cascade_fields(draw):
+    """more than 32 fields: four whose bounding boxes pull each other in one after the other (A and B overlap; C lies
+    inside the box around A and B without touching them; D only inside the box around A, B and C), in any order and
+    orientation, among 29-45 isolated two-sample fields placed before, after or around them"""
+    boxes = [(0, 1, 0, 9), (0, 9, 0, 1), (5, 6, 5, 14), (0, 1, 12, 13)]          # rmin, rmax, cmin, cmax
+    o = draw(st.integers(0, 7))
+    if o & 1:
+        boxes = [(9 - b[1], 9 - b[0], b[2], b[3]) for b in boxes]
+    if o & 2:
+        boxes = [(b[0], b[1], 14 - b[3], 14 - b[2]) for b in boxes]
+    r_off, c_off = -18, -18
+    four = []
+    for b in boxes:
+        if o & 4:          # transpose (the region is 15 x 10 then)
+            b = (b[2], b[3], b[0], b[1])
+        four.append(_rect_field(draw, b[0] + r_off, b[1] + r_off, b[2] + c_off, b[3] + c_off))
+    four = [four[i] for i in draw(st.permutations([0, 1, 2, 3]))]
+    nfill = draw(st.integers(29, 45))
+    cells = [(r, c) for r in range(0, 18, 3) for c in range(-18, 17, 4)]          # all below / right of the 15 x 15 corner
+    picks = draw(st.permutations(cells))[:nfill]
+    fill = [_rect_field(draw, r, r, c, c + 1) for r, c in picks]
+    where = draw(st.sampled_from(["before", "after", "around"]))
+    if where == "before":
+        return fill + four
+    if where == "after":
+        return four + fill
+    return fill[:nfill // 2] + four + fill[nfill // 2:]
+
+
 @hyp("C06", "reduce", lambda tier: st.one_of(st.lists(field_desc(hi=5, off=8, min_size=2), min_size=1, max_size=6),
-                                              tiled_fields()),
+                                              tiled_fields(), cascade_fields()),
      "reduce(fields): results pairwise disjoint in extent, same total as the sum of embeddings; boundary(fields) "
      "= bounding box of the union", examples=(800, 3000))
 def reduce_(case, ctx):
@@ -226,16 +256,16 @@ def reduce_(case, ctx):
     sets = [fm.coordset(f["data"].shape, f["offset"]) for f in case]
     exp = sum(fm.embed(f["data"], f["offset"]) for f in case)
     n_overlap = sum(1 for i, j in itertools.combinations(range(len(case)), 2) if sets[i] & sets[j])
-    ctx.tag(f"n:{len(case)}", "reduce_n>=3" if len(case) >= 3 else None)
-    exts = [fm.set_extent(s_) for s_ in sets]
-    if any(fm.set_extent(sets[i] | sets[j]) == exts[k] for i, j, k in itertools.permutations(range(len(case)), 3)
-           if sets[i] & sets[j]):
+    ctx.tag(f"n:{len(case) if len(case) <= 6 else '7-32' if len(case) <= 32 else '>32'}", "reduce_n>=3" if len(case) >= 3 else None)
+    exts = [fm.set_extent(s_) for s_ in sets] if len(case) <= 12 else []
+    if exts and any(fm.set_extent(sets[i] | sets[j]) == exts[k] for i, j, k in itertools.permutations(range(len(case)), 3)
+                    if sets[i] & sets[j]):
         ctx.tag("union_of_two_has_extent_of_third")
     union = set().union(*sets)
     want_bb = fm.set_extent(union)
     if want_bb[1] < 0 or want_bb[3] < 0:
         ctx.tag("negative_only_extent")
-    if len(case) >= 3:
+    if 3 <= len(case) <= 12:
         chain = any((sets[i] & sets[j]) and (sets[j] & sets[k]) and not (sets[i] & sets[k])
                     for i, j, k in itertools.permutations(range(len(case)), 3))
         ctx.tag("chain_merge" if chain else None)
